@@ -119,16 +119,18 @@ def _inputs(draw, nargs, nconds, nloops):
 def program(draw, tier="quick", calls=True, pure=True, carried=True, max_accs=2, fields=None):
     depth = 3 if tier == "quick" else 4
     max_stmts = 8 if tier == "quick" else 14
-    naccs = draw(st.integers(1, max_accs))
+    # tight mode: few fields and a very small value pool, so that different setups collide on the same values often
+    tight = draw(st.booleans())
+    naccs = draw(st.integers(1, max_accs)) if not tight or fields is not None else 1
     accs = []
     for i in range(naccs):
         if fields is not None:
             accs.append([fields[i][0], list(fields[i][1])])
         else:
-            nf = draw(st.integers(2, 4))
+            nf = 2 if tight else draw(st.integers(2, 4))
             accs.append([f"acc{i}", [f"f{j}" for j in range(nf)]])
-    nargs = draw(st.integers(1, 3))
-    consts = draw(st.lists(st.sampled_from([0, 1, 2, 5, 16, 64]), min_size=1, max_size=3, unique=True))
+    nargs = 1 if tight else draw(st.integers(1, 3))
+    consts = draw(st.lists(st.sampled_from([0, 1, 2, 5, 16, 64]), min_size=1, max_size=1 if tight else 3, unique=True))
     nconds = draw(st.integers(1, 3))
     body = draw(_stmts(accs, depth, max_stmts, calls=calls, pure=pure, carried=carried))
     inputs = draw(_inputs(nargs, nconds, count_loops(body)))
@@ -147,8 +149,9 @@ class Built:
         self.features: set[str] = set()
 
 
-def build(recipe, ty="index", extra_module_ops="", func_name="main") -> Built:
+def build(recipe, ty=None, extra_module_ops="", func_name="main") -> Built:
     b = Built()
+    ty = ty or recipe.get("ty", "index")
     accs = recipe["accs"]
     lines: list[str] = []
     counter = [0]
@@ -183,14 +186,23 @@ def build(recipe, ty="index", extra_module_ops="", func_name="main") -> Built:
             k = s[0]
             if k == "unit":
                 _, a, vrs, launch = s
-                name, fields = accs[a % len(accs)]
+                name, fields = accs[a % len(accs)][:2]
                 ops = [vref(vrs[j % len(vrs)] if vrs else 0, vals) for j in range(len(fields))]
                 st_ = fresh("s")
                 names = ", ".join(f'"{f}"' for f in fields)
                 out.append(f'{pad}{st_} = "accfg.setup"({", ".join(ops)}) <{{accelerator = "{name}", operandSegmentSizes = array<i32: {len(ops)}, 0>, '
                            f'param_names = [{names}]}}> : ({", ".join([ty] * len(ops))}) -> !accfg.state<"{name}">')
                 tk = fresh("t")
-                if launch is None:
+                acc_entry = accs[a % len(accs)]
+                if len(acc_entry) > 2:
+                    # declared launch fields: one value per launch field (launch is a vref seed)
+                    lfields = acc_entry[2]
+                    seed = launch if launch is not None else 0
+                    lvs = [vref(seed + j, vals) for j in range(len(lfields))]
+                    lnames = ", ".join(f'"{f}"' for f in lfields)
+                    out.append(f'{pad}{tk} = "accfg.launch"({", ".join(lvs + [st_])}) <{{param_names = [{lnames}], accelerator = "{name}"}}> : '
+                               f'({", ".join([ty] * len(lvs) + [f"!accfg.state<{chr(34)}{name}{chr(34)}>"])}) -> !accfg.token<"{name}">')
+                elif launch is None:
                     out.append(f'{pad}{tk} = "accfg.launch"({st_}) <{{param_names = [], accelerator = "{name}"}}> : (!accfg.state<"{name}">) -> !accfg.token<"{name}">')
                 else:
                     lv = vref(launch, vals)
